@@ -479,3 +479,160 @@ Proof.
   rewrite app_nth2; rewrite map_length; [|apply Nat.le_refl]. rewrite Nat.sub_diag. reflexivity.
 Qed.
 Print Assumptions xls_sheets_independent.
+
+(* ================================================================== XLSX, exact description
+   (no header_ok): under the "nothing to trim" hypotheses every cell below the first row is in
+   place with its converted value; the only deviations are in the first row. *)
+
+Theorem xlsx_all_rows_exact : forall is_ws r0 rest c,
+  (1 <= c)%nat -> x_rect c (r0 :: rest) = true ->
+  x_last_row_has_data is_ws (r0 :: rest) = true ->
+  x_last_col_has_data is_ws c (r0 :: rest) = true ->
+  x_all_rows is_ws (r0 :: rest) = map VStr (x_headers is_ws 0 r0) :: map (map x_cell_value) rest.
+Proof.
+  intros is_ws r0 rest c Hc Hr Hlr Hlc.
+  unfold x_all_rows. rewrite x_trim_rows_id by (try discriminate; assumption).
+  cbv beta iota zeta. rewrite (x_last_col_rect is_ws (r0 :: rest) c Hc Hr Hlc).
+  rewrite (map_firstn_rect c (r0 :: rest) Hr). reflexivity.
+Qed.
+
+Theorem xlsx_sheet_exact : forall is_ws r0 rest c,
+  (1 <= c)%nat -> x_rect c (r0 :: rest) = true ->
+  x_last_row_has_data is_ws (r0 :: rest) = true ->
+  x_last_col_has_data is_ws c (r0 :: rest) = true ->
+  xlsx_sheet is_ws (r0 :: rest)
+  = (let hs := map VStr (x_headers is_ws 0 r0) in
+     if x_is_table_name_row is_ws hs then map (map x_cell_value) rest
+     else hs :: map (map x_cell_value) rest).
+Proof.
+  intros is_ws r0 rest c Hc Hr Hlr Hlc. unfold xlsx_sheet.
+  rewrite (xlsx_all_rows_exact is_ws r0 rest c Hc Hr Hlr Hlc). reflexivity.
+Qed.
+
+Theorem xlsx_body_rows_in_place : forall is_ws r0 rest c,
+  (1 <= c)%nat -> x_rect c (r0 :: rest) = true ->
+  x_last_row_has_data is_ws (r0 :: rest) = true ->
+  x_last_col_has_data is_ws c (r0 :: rest) = true ->
+  exists first, xlsx_sheet is_ws (r0 :: rest) = first ++ map (map x_cell_value) rest
+                /\ (length first <= 1)%nat.
+Proof.
+  intros is_ws r0 rest c Hc Hr Hlr Hlc.
+  rewrite (xlsx_sheet_exact is_ws r0 rest c Hc Hr Hlr Hlc). cbv zeta.
+  destruct (x_is_table_name_row is_ws (map VStr (x_headers is_ws 0 r0))).
+  - exists []. split; [reflexivity | cbn [List.length]; lia].
+  - exists [map VStr (x_headers is_ws 0 r0)]. split; [reflexivity | cbn [List.length]; lia].
+Qed.
+
+(* the header text produced for one first-row cell, given its 0-based column index *)
+Definition x_header_of (is_ws : N -> bool) (idx : N) (c0 : xcell) : str :=
+  match xc_val c0 with
+  | VNone => UNNAMED ++ dec_N idx
+  | VStr t => if is_nil (strip is_ws t) then UNNAMED ++ dec_N idx else xc_str c0
+  | _ => xc_str c0
+  end.
+
+Lemma x_headers_nth_gen : forall is_ws r0 i j c0,
+  nth_error r0 j = Some c0 ->
+  nth_error (x_headers is_ws i r0) j = Some (x_header_of is_ws (i + N.of_nat j) c0).
+Proof.
+  induction r0 as [|c r0 IH]; intros i j c0 H; [destruct j; discriminate|].
+  destruct j as [|j].
+  - cbn [nth_error] in H. inversion H; subst c0. cbn [x_headers nth_error].
+    change (N.of_nat 0) with 0. rewrite N.add_0_r. reflexivity.
+  - cbn [nth_error] in H. cbn [x_headers nth_error]. rewrite (IH (i + 1) j c0 H).
+    replace (i + 1 + N.of_nat j) with (i + N.of_nat (S j)) by lia. reflexivity.
+Qed.
+
+Lemma x_headers_nth : forall is_ws r0 j c0,
+  nth_error r0 j = Some c0 ->
+  nth_error (x_headers is_ws 0 r0) j
+  = Some (match xc_val c0 with
+          | VNone => UNNAMED ++ dec_N (N.of_nat j)
+          | VStr t => if is_nil (strip is_ws t) then UNNAMED ++ dec_N (N.of_nat j) else xc_str c0
+          | _ => xc_str c0
+          end).
+Proof.
+  intros is_ws r0 j c0 H. rewrite (x_headers_nth_gen is_ws r0 0 j c0 H).
+  rewrite N.add_0_l. reflexivity.
+Qed.
+
+(* non-blank text is kept verbatim ... *)
+Theorem xlsx_header_cell_kept : forall is_ws r0 j c0 t,
+  nth_error r0 j = Some c0 -> xc_val c0 = VStr t -> xc_str c0 = t ->
+  strip is_ws t <> [] ->
+  nth_error (x_headers is_ws 0 r0) j = Some t.
+Proof.
+  intros is_ws r0 j c0 t H Hv Hs Hne. rewrite (x_headers_nth is_ws r0 j c0 H), Hv.
+  destruct (strip is_ws t); [congruence|]. cbn [is_nil]. rewrite Hs. reflexivity.
+Qed.
+
+(* ... blank text is replaced by the invented name *)
+Theorem xlsx_header_cell_blank_renamed : forall is_ws r0 j c0 t,
+  nth_error r0 j = Some c0 -> xc_val c0 = VStr t ->
+  strip is_ws t = [] ->
+  nth_error (x_headers is_ws 0 r0) j = Some (UNNAMED ++ dec_N (N.of_nat j)).
+Proof.
+  intros is_ws r0 j c0 t H Hv He. rewrite (x_headers_nth is_ws r0 j c0 H), Hv, He. reflexivity.
+Qed.
+
+Lemma dropWhile_nonempty {A} (p : A -> bool) l a : In a l -> p a = false -> dropWhile p l <> [].
+Proof.
+  induction l as [|x l IH]; intros Hin Hp; [destruct Hin|].
+  cbn [dropWhile]. destruct (p x) eqn:E; [|discriminate].
+  destruct Hin as [->|Hin]; [congruence | exact (IH Hin Hp)].
+Qed.
+
+Lemma strip_nonempty_head is_ws a x : is_ws a = false -> strip is_ws (a :: x) <> [].
+Proof.
+  intros Ha. unfold strip, lstrip, rstrip. cbn [dropWhile]. rewrite Ha.
+  intro E. apply (f_equal (@rev N)) in E. rewrite rev_involutive in E. cbn [rev] in E.
+  revert E. apply (dropWhile_nonempty is_ws _ a); [|exact Ha].
+  apply (proj1 (in_rev (a :: x) a)). left; reflexivity.
+Qed.
+
+(* the iff needs one fact about the whitespace oracle: "U" (the first character of the invented
+   name) is not whitespace.  Without it the statement is false: with is_ws := fun _ => true and
+   t := "Unnamed: 0" at column 0 the text is blank yet the invented name equals t. *)
+Theorem xlsx_header_cell_kept_iff : forall is_ws r0 j c0 t,
+  is_ws 85 = false ->
+  nth_error r0 j = Some c0 -> xc_val c0 = VStr t -> xc_str c0 = t -> xc_conv c0 = None ->
+  (nth_error (x_headers is_ws 0 r0) j = Some t <-> strip is_ws t <> []).
+Proof.
+  intros is_ws r0 j c0 t HU H Hv Hs _. split.
+  - intros Hh He. rewrite (xlsx_header_cell_blank_renamed is_ws r0 j c0 t H Hv He) in Hh.
+    inversion Hh as [Ht]. revert He. rewrite <- Ht.
+    change UNNAMED with (85 :: s "nnamed: "). cbn [app].
+    apply strip_nonempty_head. exact HU.
+  - intro Hne. exact (xlsx_header_cell_kept is_ws r0 j c0 t H Hv Hs Hne).
+Qed.
+
+Example xlsx_header_cell_kept_iff_needs_U :
+  let is_ws := fun _ : N => true in
+  let c0 := xstr (s "Unnamed: 0") in
+  strip is_ws (s "Unnamed: 0") = [] /\ nth_error (x_headers is_ws 0 [c0]) 0 = Some (s "Unnamed: 0").
+Proof. split; vm_compute; reflexivity. Qed.
+
+Theorem xlsx_first_row_dropped_iff : forall is_ws r0 rest c,
+  (1 <= c)%nat -> x_rect c (r0 :: rest) = true ->
+  x_last_row_has_data is_ws (r0 :: rest) = true ->
+  x_last_col_has_data is_ws c (r0 :: rest) = true ->
+  (length (xlsx_sheet is_ws (r0 :: rest)) = length rest
+   <-> x_is_table_name_row is_ws (map VStr (x_headers is_ws 0 r0)) = true)
+  /\ (length (xlsx_sheet is_ws (r0 :: rest)) = S (length rest)
+      <-> x_is_table_name_row is_ws (map VStr (x_headers is_ws 0 r0)) = false).
+Proof.
+  intros is_ws r0 rest c Hc Hr Hlr Hlc.
+  rewrite (xlsx_sheet_exact is_ws r0 rest c Hc Hr Hlr Hlc). cbv zeta.
+  destruct (x_is_table_name_row is_ws (map VStr (x_headers is_ws 0 r0)));
+    cbn [List.length]; rewrite map_length; repeat split; intros; try reflexivity; try discriminate; lia.
+Qed.
+
+Print Assumptions xlsx_all_rows_exact.
+Print Assumptions xlsx_sheet_exact.
+Print Assumptions xlsx_body_rows_in_place.
+Print Assumptions x_headers_nth.
+Print Assumptions xlsx_header_cell_kept.
+Print Assumptions xlsx_header_cell_blank_renamed.
+Print Assumptions xlsx_header_cell_kept_iff.
+Print Assumptions xlsx_header_cell_kept_iff_needs_U.
+Print Assumptions xlsx_first_row_dropped_iff.
